@@ -84,9 +84,10 @@ class FakeSock:
         self.type = 1
         self.peer = peer
         self.rcvbuf_fail_above = None
+        self.owned = False  # the connection actually received this socket (it configured it)
 
     def setblocking(self, b):
-        pass
+        self.owned = True
 
     def setsockopt(self, level, opt, value):
         import socket as _s
